@@ -527,7 +527,7 @@ class Connect(ProtocolDataUnit):
         data = self.encode_header()
         if self.miu and self.miu > 128:
             data += Parameter.encode(Parameter.MIUX, self.miu - 128)
-        if self.rw and self.rw != 1:
+        if self.rw is not None and self.rw != 1:
             data += Parameter.encode(Parameter.RW, self.rw)
         if self.sn:
             data += Parameter.encode(Parameter.SN, self.sn)
@@ -536,7 +536,7 @@ class Connect(ProtocolDataUnit):
     def __len__(self):
         return (2 +
                 (4 if self.miu and self.miu > 128 else 0) +
-                (3 if self.rw and self.rw != 1 else 0) +
+                (3 if self.rw is not None and self.rw != 1 else 0) +
                 (2 + len(self.sn) if self.sn else 0))
 
     def __str__(self):
@@ -599,14 +599,14 @@ class ConnectionComplete(ProtocolDataUnit):
         data = self.encode_header()
         if self.miu and self.miu > 128:
             data += Parameter.encode(Parameter.MIUX, self.miu - 128)
-        if self.rw and self.rw != 1:
+        if self.rw is not None and self.rw != 1:
             data += Parameter.encode(Parameter.RW, self.rw)
         return data
 
     def __len__(self):
         return (2 +
                 (4 if self.miu and self.miu > 128 else 0) +
-                (3 if self.rw and self.rw != 1 else 0))
+                (3 if self.rw is not None and self.rw != 1 else 0))
 
     def __str__(self):
         return super(ConnectionComplete, self).__str__() + \
